@@ -37,7 +37,20 @@
 (*                   BEFORE it stores the new class (FALSE: stores first,  *)
 (*                   so `class X : X` finds itself, is accepted and is its *)
 (*                   own ancestor from then on; the same for a class that  *)
-(*                   is re-declared as a subclass of its own subclass)     *)
+(*                   is re-declared as a subclass of its own subclass;     *)
+(*                   the class is in the store also when a later check of  *)
+(*                   CreateClass rejects it and the compile call fails,    *)
+(*                   and every LATER compile call that resolves its        *)
+(*                   ancestry recurses for ever)                           *)
+(*   AncestryWalk    MOFWBEMConnection.CreateClass rejects a class that    *)
+(*                   would be among its own ancestors (it walks the chain  *)
+(*                   of superclasses of the new superclass; FALSE: only    *)
+(*                   the existence of the superclass is checked, so an     *)
+(*                   existing class can be re-declared as a subclass of    *)
+(*                   its own subclass).  With SuperCheckFirst = FALSE and  *)
+(*                   AncestryWalk = TRUE `class X : X` is stored, finds    *)
+(*                   itself, and is then REJECTED by the walk - but stays  *)
+(*                   in the store                                          *)
 (*   GuardCanonical  the include guard of compile_file compares canonical  *)
 (*                   (absolute, normalised) paths (FALSE: the path as it   *)
 (*                   was spelled; a cycle through a path with a redundant  *)
@@ -75,7 +88,7 @@ EXTENDS MofCompile
 
 CONSTANTS IncludeGuard, NsNoneCheck, HexBounds, CtxBounds, ValueWrapped,
           RepoWrapped, EmbFinally, RestoreOnReturn, EmbRestoreAll,
-          SuperCheckFirst, GuardCanonical, RegisterAfterCreate, NsCachesInit,
+          SuperCheckFirst, AncestryWalk, GuardCanonical, RegisterAfterCreate, NsCachesInit,
           EmbNullChecked, OverflowWrapped, InstOffsetAll, OpenPrecheck
 
 AnyMof == {"ok"} \cup MOFErrors
@@ -155,6 +168,9 @@ RepoOut(p) ==
 (*      reg  the name of a class that could NOT be created is in           *)
 (*           parser.classnames                                             *)
 (*      nsinit  parser.classnames has an entry for the target namespace    *)
+(*      lcyc the repository holds, under the name of the class the session *)
+(*           tried to declare, a class that is its own ancestor (left      *)
+(*           behind by a production of an EARLIER compile call)            *)
 UsesPrelude(p) == p.k \in {"class", "instance"}
 
 (* valid productions of the "good" text that depend on the class the       *)
@@ -168,6 +184,17 @@ ConsultsClassnames(p) ==
 ReachesCreate(p) ==
   p.k = "class" /\ ((p.d = "dependency" /\ p.v # "unknown_qualifier")
                     \/ (p.d = "repo" /\ p.v # "EnumerateQualifiers"))
+
+(* a class production that leaves a class whose chain of ancestors runs    *)
+(* into a cycle in the repository's class store - whether CreateClass      *)
+(* accepted or rejected it                                                 *)
+LeavesCycle(p) ==
+  /\ p.k = "class" /\ p.d = "dependency"
+  /\ \/ p.v = "super_self" /\ ~SuperCheckFirst
+     \* the two files on the search path declare each other's subclass; both
+     \* are stored before the compile of the second one is refused
+     \/ p.v = "super_cycle_searchpath" /\ ~SuperCheckFirst
+     \/ p.v = "super_redefine_cycle" /\ (~SuperCheckFirst \/ ~AncestryWalk)
 
 (* the dependency fix-up of p_mp_createClass runs (CreateClass was rejected *)
 (* because of an unresolved REF / EmbeddedInstance class)                   *)
@@ -186,6 +213,13 @@ ImplProd(p, env) ==
          ELSE IF InstHasQuals(p) /\ InstHasAlias(p) /\ ~InstOffsetAll
          THEN {"IndexError"}
          ELSE IF p = OfPrev /\ env.cyc THEN {"RecursionError"}
+         \* part H: a use of a class name without a valid declaration is
+         \* rejected (the class does not exist) or, if the repository kept
+         \* the class of the failed declaration, accepted; resolving the
+         \* ancestry of a class that is its own ancestor never ends
+         ELSE IF p \in Later
+         THEN IF env.lcyc /\ ResolvesAncestry(p) THEN {"RecursionError"}
+              ELSE AnyMof
          ELSE IF ConsultsClassnames(p) /\ env.reg /\ p.a = 1
          THEN {"MOFDependencyError"}   \* lookup skipped: "already known"
          ELSE {"ok"}
@@ -224,10 +258,14 @@ ImplProd(p, env) ==
          ELSE IF p.v \in {"super_in_searchpath", "class_in_searchpath"}
          THEN {"ok"}
          ELSE IF p.v = "super_self"
-         THEN {IF SuperCheckFirst THEN "MOFDependencyError" ELSE "ok"}
+         \* superclass lookup fails (the class is not stored yet), or finds
+         \* the class itself and the walk over the ancestors rejects it
+         THEN {IF SuperCheckFirst \/ AncestryWalk THEN "MOFDependencyError"
+               ELSE "ok"}
          ELSE IF p.v = "super_redefine_cycle"
-         THEN IF SuperCheckFirst
-              THEN {"MOFDependencyError", "MOFRepositoryError"} ELSE {"ok"}
+         \* the new superclass exists in either order of store / lookup
+         THEN IF AncestryWalk THEN {"MOFDependencyError", "MOFRepositoryError"}
+              ELSE {"ok"}
          ELSE IF p.v \in {"super_cycle_searchpath", "class_cycle_searchpath"}
          THEN IF IncludeGuard THEN {"MOFParseError", "MOFDependencyError"}
               ELSE {"RecursionError"}
@@ -272,7 +310,7 @@ PredictSeq(ses, prods, i, nsw, loose) ==
                    THEN MOFErrors
                    ELSE ImplProd(p, [nsw |-> nsw, emb |-> FALSE,
                                      cyc |-> FALSE, reg |-> FALSE,
-                                     nsinit |-> TRUE])
+                                     nsinit |-> TRUE, lcyc |-> FALSE])
            nsw2 == nsw \/ (p.k = "namespace" /\ p.d = "none" /\ p.v = "other")
                        \/ (p.k = "include" /\ p.v = "inc2"
                            /\ \E q \in Rng(ses.inc) :
